@@ -66,7 +66,7 @@ func newGen(rng *hcommon.RNG, prop string) *genState {
 func (g *genState) config() map[string]any {
 	r := g.rng
 	cfg := map[string]any{"uri": "r1", "strict": r.Chance(1, 8), "disclose": r.Chance(1, 2) || (g.prop == "C12" && r.Chance(1, 2)), "metaKill": r.Chance(3, 4),
-		"metaModify": r.Chance(1, 2), "metaStrict": r.Chance(1, 5)}
+		"metaModify": r.Chance(1, 2) || g.prop == "C18", "metaStrict": r.Chance(1, 5)}
 	if boolOf(cfg, "metaStrict") && r.Chance(1, 2) {
 		cfg["metaInc"] = []any{"team"}
 	}
@@ -723,6 +723,10 @@ func (g *genState) metaCall(k int) map[string]any {
 	if g.prop == "C12" && r.Chance(1, 2) {
 		sel = 3 // wamp.session.get
 	}
+	if g.prop == "C18" && r.Chance(1, 3) {
+		// identities change under modify_details: counts and lists with a filter must keep agreeing
+		sel = hcommon.Pick(r, []int{1, 2, 8, 8})
+	}
 	if g.forceSel > 0 {
 		sel = g.forceSel
 	}
@@ -774,6 +778,9 @@ func (g *genState) metaCall(k int) map[string]any {
 		}
 		return call("wamp.session.count", nil, nil)
 	case 8:
+		if g.prop == "C18" && r.Chance(1, 2) {
+			return call("wamp.session.modify_details", []any{g.sidRef(), map[string]any{"authrole": hcommon.Pick(r, []any{"admin", "user", "trusted", "auditor"})}}, nil)
+		}
 		return call("wamp.session.modify_details", []any{g.sidRef(), hcommon.Pick(r, []any{
 			map[string]any{"team": "green"}, map[string]any{"team": nil}, map[string]any{"authrole": "admin"},
 			map[string]any{"session": 5}, "x", map[string]any{"authid": "carol", "extra": 1}})}, nil)
